@@ -22,7 +22,7 @@ import time
 VERIF = os.path.abspath(os.path.join(os.path.dirname(__file__), "..", ".."))
 REPO = os.environ.get("VERIF_REPO", "/repo")
 CACHE = os.path.join(VERIF, ".cache")
-FEATURES = "turn,ice,discovery,mobility,experiments"
+FEATURES = "turn,ice,discovery,mobility"  # "experiments" (custom/random padding) pulls rand into the encode path: Kani compiler ICE
 
 # ---------------------------------------------------------------------------------------------
 # Where harness modules are injected.  key = build name, value = (crate dir relative to the
@@ -149,13 +149,16 @@ def open_findings(prop=None):
             if e.get("status") == "open" and (prop is None or e["property"] == prop)]
 
 
-def write_cfg_rs(path):
+def write_cfg_rs(path, native=False):
     """verif_cfg.rs: one `pub const KF_<KEY>: bool` per entry of known_findings.json.  The file
     is authoritative: an exclusion exists in a harness only while its entry is listed as open."""
     kf = load_known_findings()
     lines = ["// generated by /verif/lib/rv/driver.py from known_findings.json", "#![allow(dead_code)]"]
     for e in kf["findings"]:
         lines.append("pub const KF_%s: bool = %s;" % (e["key"].upper(), "true" if e.get("status") == "open" else "false"))
+    # NATIVE_REPLAY: true only in the concrete-playback build; harnesses that bypass a validating
+    # constructor under the solver go through the real constructor when replayed natively
+    lines.append("pub const NATIVE_REPLAY: bool = %s;" % ("true" if native else "false"))
     with open(path, "w") as f:
         f.write("\n".join(lines) + "\n")
 
@@ -311,13 +314,15 @@ def parse_log(h, lines, wall, timed_out, rc, logpath):
         errs = [l for l in lines if l.startswith("error")]
         r["detail"] = "; ".join(errs[:5]) or "harness not found or build failed (rc=%s)" % rc
     elif "VERIFICATION:- SUCCESSFUL" in txt:
-        if h.covers is not None and (r["covers_total"] < h.covers or r["covers_satisfied"] < r["covers_total"]):
-            r["status"] = "vacuous"
-            r["detail"] = "covers satisfied %d of %d (expected >= %s)" % (r["covers_satisfied"], r["covers_total"], h.covers)
+        if h.covers is not None:
+            # explicit minimum: some witnesses are statically dead in a size/option instance
+            if r["covers_satisfied"] < h.covers:
+                r["status"] = "vacuous"
+                r["detail"] = "covers satisfied %d of %d (expected >= %s)" % (r["covers_satisfied"], r["covers_total"], h.covers)
         elif r["covers_total"] and r["covers_satisfied"] < r["covers_total"]:
             r["status"] = "vacuous"
             r["detail"] = "covers satisfied %d of %d" % (r["covers_satisfied"], r["covers_total"])
-        else:
+        if r["status"] is None:
             r["status"] = "pass"
     elif "VERIFICATION:- FAILED" in txt and not r["failed_descriptions"] and r["checks_failed"] == 0:
         r["status"] = "error"
@@ -366,6 +371,7 @@ def playback(scratch, h, res):
             if tname and hfile and os.path.exists(hfile):
                 with open(hfile, "a") as f:
                     f.write("\n" + test + "\n")
+                write_cfg_rs(os.path.join(cdir, "src", "verif_cfg.rs"), native=True)
                 outs = []
                 reproduced = False
                 for prof in ([], ["--release"]):
@@ -393,6 +399,7 @@ def playback(scratch, h, res):
                     outs += ["    " + l for l in tail]
                     if failed:
                         reproduced = True
+                write_cfg_rs(os.path.join(cdir, "src", "verif_cfg.rs"), native=False)
                 body += ["", "native replay:"] + outs
                 detail = "; ".join(o for o in outs if o.startswith("profile"))
             else:
@@ -566,8 +573,9 @@ def run_property(prop, harnesses, tier, meta, only=None, workers=None, mem_total
         "wall_s": round(wall, 2),
         "violations": viol,
     }
-    os.makedirs(os.path.join(VERIF, "evidence"), exist_ok=True)
-    with open(os.path.join(VERIF, "evidence", prop + ".json"), "w") as f:
+    evdir = os.environ.get("VERIF_EVIDENCE_DIR") or os.path.join(VERIF, "evidence")
+    os.makedirs(evdir, exist_ok=True)
+    with open(os.path.join(evdir, prop + ".json"), "w") as f:
         json.dump(ev, f, indent=1)
     for l in out_lines:
         print(l)
